@@ -29,6 +29,8 @@ let handle (req : Sx.t) : Sx.t =
     L [A "table-ok"; sx_of_bool (ascii_ok classify)]
   | L [A "accept_job"; j] -> sx_of_outcome sx_of_bool (accept_job classify (json_of_sx j))
   | L [A "accept_env"; j] -> sx_of_outcome sx_of_bool (accept_env classify (json_of_sx j))
+  | L [A "accept_job_spec"; j] -> sx_of_outcome sx_of_bool (accept_job_spec classify (json_of_sx j))
+  | L [A "accept_env_spec"; j] -> sx_of_outcome sx_of_bool (accept_env_spec classify (json_of_sx j))
   | L [A "cs_ok"; A cs; s] -> sx_of_bool (cs_ok (charset_of cs) (str_of_sx s))
   | _ -> failwith "unknown-request"
 
